@@ -190,6 +190,19 @@ class SimOS:
             frontier = nxt
         return pid in frontier
 
+    def foreign_close(self, pid, path):
+        """The process closed a descriptor of `path` that it did not get from lock.py (e.g.
+        a user opened the lock file itself): POSIX drops every record lock the process holds
+        on that file."""
+        inode = self.inode_of(path)
+        held = self.locks.get(inode)
+        if held is not None and pid in held:
+            del held[pid]
+            self._count('kernel.lock_dropped_by_foreign_close')
+            self.k.log('foreign-close', pid, _os.path.basename(path))
+            if not held:
+                del self.locks[inode]
+
     def exit_process(self, pid):
         """Process death: drop all record locks and descriptors."""
         self.dead.add(pid)
